@@ -67,6 +67,11 @@ func ParsePublicURLWithScheme(input string, allowReserved bool, allowedSchemes .
 	if len(allowedSchemes) > 0 && !slices.Contains(allowedSchemes, parsed.Scheme) {
 		return nil, fmt.Errorf("scheme must be %s", strings.Join(allowedSchemes, " or "))
 	}
+	if !allowReserved && !isASCII(parsed.Host) {
+		// net/http maps a non-ASCII host name to ASCII (IDNA, UTS-46) before it connects: full-width digits become
+		// an IP address, full-width letters a reserved name. Refuse what can't be checked as written.
+		return nil, errors.New("hostname contains non-ASCII characters")
+	}
 	// an IPv6 literal can carry a zone identifier ([fe80::1%25eth0]), which net.ParseIP does not accept
 	ipCandidate, _, _ := strings.Cut(parsed.Hostname(), "%")
 	if net.ParseIP(ipCandidate) != nil && !allowReserved {
@@ -79,6 +84,15 @@ func ParsePublicURLWithScheme(input string, allowReserved bool, allowedSchemes .
 }
 
 // isReserved returns true if URL uses any of the reserved TLDs or addresses
+func isASCII(s string) bool {
+	for i := 0; i < len(s); i++ {
+		if s[i] >= 0x80 {
+			return false
+		}
+	}
+	return true
+}
+
 func isReserved(URL *url.URL) bool {
 	parts := strings.Split(strings.ToLower(URL.Hostname()), ".")
 	tld := parts[len(parts)-1]
